@@ -285,7 +285,7 @@ impl Prop for C11 {
             let ops = super::c02::install_dual_role();
             let kinds = vec![
                 Kind::Infix("%".into()), Kind::Postfix("%".into()), Kind::Infix("*".into()), Kind::Prefix("*".into()),
-                Kind::Infix("!".into()), Kind::Prefix("!".into()), Kind::Infix("++".into()), Kind::Postfix("++".into()), Kind::Infix("+".into()), Kind::Call(1),
+                Kind::Infix("!".into()), Kind::Prefix("!".into()), Kind::Infix("++".into()), Kind::Postfix("++".into()), Kind::Infix("+".into()), Kind::Infix("\u{2264}".into()), Kind::Call(1), Kind::List(1), Kind::Map(1),
             ];
             let rot = crate::gen::leaf_rotation();
             let mut v = Vec::new();
@@ -300,7 +300,8 @@ impl Prop for C11 {
                             match t {
                                 Ast::Binary(op, l, r) => ((op == "%" || op == "++") && matches!(**l, Ast::Postfix(..))) || go(l) || go(r),
                                 Ast::Unary(_, x) | Ast::Postfix(x, _) => go(x),
-                                Ast::Func(_, v) => v.iter().any(go),
+                                Ast::Func(_, v) | Ast::List(v) => v.iter().any(go),
+                                Ast::Map(v) => v.iter().any(|(k, x)| go(k) || go(x)),
                                 _ => false,
                             }
                         }
@@ -327,6 +328,29 @@ impl Prop for C11 {
             let text = parse::print(t, &ops, Parens::Minimal);
             let base = match engine::parse(&text) {
                 Res::Ok(ast) if &ast == t => ast,
+                Res::Err(_) if stage == 0 => {
+                    // the compact text is rejected (C02's finding). If the same tokens with MORE
+                    // whitespace between them are accepted, that accepted program changes its
+                    // parse when the amount of whitespace changes: C11's finding too
+                    out.count("skipped_c02_findings", 1);
+                    if let Ok(toks) = lex(&text, &ops) {
+                        for w in ["  ", " \t ", "\n\n\n"] {
+                            let mut variant = String::new();
+                            for t in &toks {
+                                variant.push_str(&text[t.start..t.end]);
+                                variant.push_str(w);
+                            }
+                            out.evals += 1;
+                            if let Res::Ok(ast) = engine::parse(&variant) {
+                                if &ast == t {
+                                    out.fail("whitespace:accepted-only-with-more-whitespace", format!("whitespace|{}", show(&variant)), format!("{:?} is rejected, {:?} parses to the expected tree", text, variant));
+                                    break;
+                                }
+                            }
+                        }
+                    }
+                    continue;
+                }
                 _ => {
                     out.count("skipped_c02_findings", 1);
                     continue;
